@@ -10,6 +10,7 @@ import Mkdb.Proofs.SpecRefineB
 import Mkdb.Proofs.SpecHistory
 import Mkdb.Proofs.ColumnNames
 import Mkdb.Model.Session
+import Mkdb.Proofs.BaseCase1
 /-!
 # C01 — table contents always equal what the statement history implies
 
@@ -627,5 +628,62 @@ theorem C01_names_refusals_example :
       ∃ e db', evalStmt dbA [] (.createTable uname (bcols ++ bcols)) = .err e db' ∧ db'.wal = dbA.wal ∧
         Rel db' pt0 sch1 [(tname, t0)] sdbA0) :=
   names_refusals_example
+
+end Mkdb.Store
+
+namespace Mkdb.Store
+open Mkdb.Tree Mkdb.Page Mkdb.Tuple Mkdb.Generated
+
+/-- **C01.create_database_establishes_the_invariants** (the base case of every induction above).
+`storage.CreateDB` as modelled (`createDB`, write order `[]`, from nothing) returns the store
+`newStore` - computed by kernel evaluation of the model: the page table at 4096 with the rows of
+`sys_pages` and `sys_schema`, `sys_schema` at 8192 with the six rows that describe the two catalog
+tables, row ids and LSNs 1-8 used, both pages and the header in the data file; the levels model agreed
+with every insert.  The session installs `newDB` = that data file re-opened, with an empty log.  Of
+`newDB`, with the catalog description `ptNew`, `schNew` (the two one-leaf trees), NO user tables and
+the EMPTY plain database, every invariant of the development holds: the catalog invariant `Cat`, the
+abstraction `Abs` / `AbsV`, `NoStale`, `MemFiled`, hence `Rel` (what every statement preserves);
+`PtSelf`, `FreshM`, and the checkpoint invariant `Ckpt` (what flushes, crashes and recoveries
+preserve).  None of the hand-written stores of the examples (`emptyCatalog`, `st0`, `st1`) is this
+store (`Proofs/BaseCase`, `BaseCase3`). -/
+theorem C01_create_database_establishes_the_invariants :
+    createDB [] {} = .ok () newStore ∧ newDB = { store := reopen newStore, wal := [] } ∧
+    (∀ (s s' : Session.Sess) (name : Bytes), Session.exec s (.createDatabase name) = (s', Session.Out.ok) →
+      s' = Session.setDB s (Session.canon name) newDB) ∧
+    Cat newDB.store ptNew schNew [] ∧ Abs newDB.store ptNew schNew [] [] ∧ AbsV newDB.store ptNew schNew [] [] ∧
+    NoStale schNew [] ∧ MemFiled newDB.store ∧ Rel newDB ptNew schNew [] [] ∧
+    PtSelf ptNew ∧ FreshM newDB.store [] ∧ Ckpt schNew newDB [] ptNew [] :=
+  ⟨createDB_eq, rfl, fun s s' name h => exec_createDatabase_newDB s name s' h, cat_newDB, abs_newDB, absV_newDB,
+    noStale_new, memFiled_newDB, rel_newDB, ptNew_self, freshM_newDB, ckpt_newDB⟩
+
+/-- **C01.catalog_describes_itself**: in the new database the page table names itself and `sys_schema`,
+and the column lists `sys_schema` spells for `sys_pages` and for `sys_schema` are the schemas the
+catalog lookups decode their rows with; this description of the store is the only one. -/
+theorem C01_catalog_describes_itself :
+    ptEntries ptNew = [(sysPages, 4096), (sysSchema, 8192)] ∧
+    schemaOf schNew sysPages = some pageTableSchema ∧ schemaOf schNew sysSchema = some schemaTableSchema ∧
+    ∀ pt sch tbls sdb, Rel newDB pt sch tbls sdb → pt = ptNew ∧ sch = schNew ∧ tbls = [] ∧ sdb = [] :=
+  ⟨ptNew_entries, schNew_describes_catalog.1, schNew_describes_catalog.2, fun _ _ _ _ h => rel_newDB_unique h⟩
+
+/-- **C01.every_history_from_create_database**: `C01_every_history_refines_plain_model` with its
+hypothesis discharged at the real starting point.  From the database `CREATE DATABASE` leaves and the
+empty plain database, through any list of statements each of which the plain model accepts (with
+room) or refuses before a change, for any page write order of the flushes, the engine model never
+crashes and ends related to the plain database the history implies. -/
+theorem C01_every_history_from_create_database (order : List Nat) (sts : List Sql.Stmt)
+    (hok : HistOK order sts newDB []) :
+    ∃ db' pt' sch' tbls', runHist order newDB sts = some db' ∧ Rel db' pt' sch' tbls' (specHist [] sts) :=
+  from_create_database_history_order order sts hok
+
+/-- **C01.create_table_after_create_database** (non-vacuity of the above): `CREATE TABLE t (a INT)` on
+the new database is accepted by the plain model and by the engine model; the relation holds afterwards
+for the plain database with the one empty table `t (a INT)`; and the one-statement history meets
+`HistOK`. -/
+theorem C01_create_table_after_create_database :
+    (Spec.specStmt [] (.createTable tname acols) = some [⟨tname, [⟨"a", .int, 0⟩], []⟩] ∧
+      ∃ db' pt' sch' tbls', evalStmt newDB [] (.createTable tname acols) = .ok () db' ∧
+        Rel db' pt' sch' tbls' [⟨tname, [⟨"a", .int, 0⟩], []⟩]) ∧
+    HistOK [] [.createTable tname acols] newDB [] :=
+  ⟨create_table_on_newDB, histOK_create_t⟩
 
 end Mkdb.Store
